@@ -13,7 +13,7 @@ EXPLANATION = (
     "arrays. The candidate ball must be centred on the source points with radius max_thickness/voxel_size. "
     "process_matches_cpu2cpu: matches sorted by distance before the greedy loop, a pair accepted only if neither point is "
     "taken, both marked taken with a marker that can never read as 'free', tuple layout (dist, source, target) agreed "
-    "between producer and consumer, thickness = distance * voxel_size. Direction '2to1' swaps the two surfaces.")
+    "between producer and consumer, thickness = distance * voxel_size. Direction '2to1' swaps the two surfaces. measure_thickness_cpu returns the results of the one-to-one assignment unchanged, keyed by the source point.")
 ASSUMPTIONS = TRUSTED + ["normals are unit vectors (stated input contract); invariance under rigid motion follows from using only "
                          "dot products and norms"]
 
